@@ -20,7 +20,12 @@ using namespace vc;
 #  define C05_PTR uint16_t
 #endif
 using PtrT = C05_PTR;
+#ifdef C05_LOG
+// pointer-wide (64-bit) base-relative representation over a 2^C05_LOG region
+using Cfg = mb::cfg<PtrT, mb::abi_lp32, mb::C05_MODE, 2, false, C05_LOG>;
+#else
 using Cfg = mb::cfg<PtrT, mb::abi_lp32, mb::C05_MODE, 2>;
+#endif
 using SB = mb::mbox<Cfg>;
 using sbx_t = rlbox::rlbox_sandbox<SB>;
 template<class T>
@@ -48,7 +53,7 @@ GS(int*, sizeof(PtrT))
 GS(long*, sizeof(PtrT))
 GS(int[4], 16)
 GS(long[3], 12)
-using VSG = std::conditional_t<sizeof(PtrT) == 2, VS_lp32_p16, VS_lp32_p32>;
+using VSG = std::conditional_t<sizeof(PtrT) == 2, VS_lp32_p16, std::conditional_t<sizeof(PtrT) == 4, VS_lp32_p32, VS_lp32_p64>>;
 GS(VS, sizeof(VSG))
 #undef GS
 
